@@ -89,6 +89,7 @@ def to_iban(number):
     """Convert the number to an IBAN."""
     from stdnum import iban
     separator = ' ' if ' ' in number else ''
+    number = '0' * (11 - len(clean(number, ' .-').strip())) + number
     return separator.join((
         'NO' + iban.calc_check_digits('NO00' + number),
         number))
